@@ -23,7 +23,7 @@ TRUSTED = ['IrcMsg(line) (subject of C05) enters the theorems as an arbitrary fu
            'the hypothesis of C11_in_reads_never_killed, counted per run in input_distribution (hypothesis:parser-raised-uncaught-exception must stay absent)',
            'the dispatch loop (drivers.run / SocketDriver._select / run) is replaced by the event script; "an exception leaving _read/_sendIfMsgs '
            'ends the driver" is drivers.run\'s except clause, emulated by the harness and by the model field `dead`',
-           'reconnect(), die()/zombie, starttls and SSLError paths are not modelled (a leftover outbuffer surviving reconnect() is outside the theorems)']
+           'reconnect() is modelled for the successful case only (real reconnect() against a scripted socket factory; observations are per connection); die()/zombie, starttls and SSLError paths are not modelled']
 ASSUMPTIONS = ['world.testing/log.testing off', 'charade not importable (checked by the table extractor): decode_raw_line = utf-8 strict, else utf-8 replace',
                'recv() error codes exclude ETIMEDOUT, which CPython >= 3.10 maps to socket.timeout',
                'send() returns 0..len(data) or raises socket.error; recv() returns <= 1024 bytes']
@@ -31,13 +31,22 @@ LEVEL_TEXT = ('Coq theorems over an executable Gallina model of SocketDriver._se
               '(any interleaving of sends, reads, partial writes, EAGAIN, errors, timeouts) the messages fed to the bot are a function of the concatenated '
               'received bytes alone (hence equal for any two partitions of a stream, whatever the decoder and parser), the unparsed remainder is the last piece, with no bound on the length of a line or of that remainder (the statements of _read between recv() and the per-line loop are pinned one by one); a line the '
               'parser rejects with a caught exception is skipped and, if the parser raises nothing else, no byte stream can end the driver; '
-              'the outgoing invariant wire ++ outbuffer = utf8(text of the messages that entered the buffer) holds on EVERY trace (finding C11.F11 repaired: the '
+              'the outgoing invariant wire ++ outbuffer = utf8(text of the messages that entered the buffer) holds on EVERY trace, across reconnects (C11.F47 repaired: a reconnect leaves nothing of the previous connection, C11_reconnect_fresh) (finding C11.F11 repaired: the '
               'out-buffer holds the unsent bytes), that text being all text taken from the queue unless a last batch had no UTF-8 encoding (its exception ends the '
               'driver); the buffer drains under sends returning > 0; an EAGAIN moves no byte and keeps the connection exactly up to the regenerated limit, and EAGAINs in runs of at most limit+1 never end the connection however many in total (the counter is reset by every successful send; the send block is pinned statement by statement).  '
               'Tied to the source by regenerated constants (EAGAIN code and limit, line separator, whitespace set, bytes out-buffer) and a per-event '
               'differential run of the extracted model against the real driver on every check.')
-LEVEL_NOTE = ('Trusted: Coq kernel, gen_tables.py, extraction + OCaml driver, the Python harness (fake socket, stub irc, emulation of drivers.run\'s '
-              'kill-on-exception); IrcMsg/decode/strip are parameters of the theorems; reconnect/die/TLS not modelled; Python code is modelled, not verified.')
+LEVEL_NOTE = ('Trusted: Coq kernel, gen_tables.py, extraction + OCaml driver, the Python harness (scripted socket and socket factory, stub irc, emulation of '
+              'drivers.run\'s kill-on-exception); IrcMsg/decode/strip are parameters of the theorems; Python code is modelled, not verified.  NOT modelled (gap audit): '
+              '(1) die()/zombie: Irc.die() removes the driver from the loop inside the _sendIfMsgs that takes the QUIT, so a short write truncates it (known finding '
+              'C11.F48, direct oracle only); (2) failing connection attempts in reconnect() (DNS/connect/TLS errors, scheduleReconnect back-off), reconnect(wait=True), '
+              'the EINPROGRESS/_checkAndWriteOrReconnect path (it sets connected without adding the driver to _instances; unreachable with timeout sockets); '
+              '(3) the dispatch SocketDriver.run/_select (shared class list _instances mutated while iterated: a read is postponed one round, no byte lost) -- events are '
+              'direct calls of _sendIfMsgs/_read/reconnect; (4) TLS: starttls, SSLError branches of _read, SSLWant* errors (treated like any non-EAGAIN error: disconnect); '
+              '(5) a send() that TIMES OUT (socket.timeout after drivers.poll seconds on a full kernel buffer) is a non-EAGAIN socket.error: the driver disconnects (modelled '
+              'as SErr code 0), "EAGAIN" in the property is only errno 11; recv errno ETIMEDOUT is mapped to socket.timeout by CPython >= 3.10 and ignored; '
+              '(6) decode_raw_line with charade installed (pinned absent); (7) outgoing messages are objects with __str__ (not Irc.takeMsg of a real Irc: truncation, outFilter '
+              'are C06/C19); (8) one driver, one network, default drivers.poll / maxReconnectWait; Python 2 branches.')
 TECHNIQUE = 'Coq proof (trace invariants by induction, list-splitting lemmas) + regenerated tables + extracted-model differential correspondence per event'
 EXPLANATION = 'C11: model of the SocketDriver byte-stream paths; theorems in coq/C11/Props.v'
 
@@ -56,13 +65,23 @@ def mods():
         import supybot.ircmsgs as ircmsgs
         import supybot.utils.str as ustr
 
+        import supybot.conf as conf
+        import supybot.utils as utils
+
         class Driver(Socket.SocketDriver):
-            """the real driver; only the network connection attempt is stubbed out"""
+            """the real driver; only the connection attempt made by __init__ is stubbed out (reconnect() is the real one)"""
             def connect(self, **kwargs):
                 pass
 
-            def reconnect(self, *a, **k):
-                pass
+        # the real reconnect() runs against a scripted socket factory instead of the network
+        def get_socket(*a, **k):
+            return FakeConn()
+        utils.net.getSocket = get_socket
+        utils.net.getAddressFromHostname = lambda hostname, attempt=0: '127.0.0.1'
+        net = conf.supybot.networks.get('test')
+        net.servers.set('fake.invalid:6667 other.invalid:6667')
+        net.ssl.setValue(False)
+        _mods.update(conf=conf)
         _mods.update(drivers=drivers, Socket=Socket, ircmsgs=ircmsgs, ustr=ustr, Driver=Driver)
     return _mods
 
@@ -144,6 +163,9 @@ class FakeConn:
         self.log.append('eagain' if r[1] == 11 else 'err')
         raise socket.error(r[1], 'scripted error')
 
+    def connect(self, address):
+        pass
+
     def close(self):
         self._closed = True
 
@@ -185,26 +207,38 @@ def fed_lines(irc):
 
 
 def run_impl(events, check=None):
-    """drive the real SocketDriver; returns (snapshots, final observations, driver triple)"""
+    """drive the real SocketDriver; returns (snapshots, final observations of the current connection, driver tuple)"""
+    m = mods()
     d, irc, conn = new_driver()
     dead = 0
     snaps = []
+    reconnected = False
     for i, ev in enumerate(events):
         if not dead:                       # drivers.run: an escaped exception removes the driver
-            irc.queue = [Txt(t) for t in ev['msgs']]
-            conn.sres = ev['s']
-            conn.rres = ev.get('r')
             try:
-                if ev['t'] == 'send':
-                    d._sendIfMsgs()
+                if ev['t'] == 'reconnect':
+                    # run() once nextReconnectTime has passed / irc.driver.reconnect(): the REAL reconnect()
+                    reconnected = True
+                    d.reconnect()
+                    conn = d.conn
+                    irc.queue, irc.taken, irc.fed = [], [], []      # observations are per connection
                 else:
-                    d._read()
+                    irc.queue = [Txt(t) for t in ev['msgs']]
+                    conn.sres = ev['s']
+                    conn.rres = ev.get('r')
+                    if ev['t'] == 'send':
+                        d._sendIfMsgs()
+                    else:
+                        d._read()
             except Exception as e:         # noqa
                 dead = exn_code(e)
             if check is not None:
                 check(i, d, irc, conn, dead)
         snaps.append(snap(d, irc, conn, dead))
     final = [list(conn.wire), [ord(c) for c in ''.join(irc.taken)], list(conn.received), fed_lines(irc)]
+    if reconnected:                        # what the real reconnect() registered globally
+        del m['Socket'].SocketDriver._instances[:]
+        m['conf'].supybot.drivers.poll._callbacks = []
     return snaps, final, (d, irc, conn, dead)
 
 
@@ -214,6 +248,8 @@ def w_sres(s):
 
 
 def w_event(ev):
+    if ev['t'] == 'reconnect':
+        return [2]
     if ev['t'] == 'send':
         return [0, ev['msgs'], w_sres(ev['s'])]
     r = ev['r']
@@ -224,9 +260,14 @@ def w_event(ev):
 def parse_table(events):
     """line -> exception code, for every line of the received stream on which the real IrcMsg raises"""
     m = mods()
-    stream = b''.join(bytes.fromhex(ev['r'][1]) for ev in events if ev['t'] == 'read' and ev['r'][0] == 'data')
+    streams = [b'']                       # one byte stream per connection
+    for ev in events:
+        if ev['t'] == 'reconnect':
+            streams.append(b'')
+        elif ev['t'] == 'read' and ev['r'][0] == 'data':
+            streams[-1] += bytes.fromhex(ev['r'][1])
     tbl = {}
-    for raw in stream.split(b'\n'):
+    for raw in (l for st in streams for l in st.split(b'\n')):
         s = m['ustr'].decode_raw_line(raw).strip()
         if s and s not in tbl:
             try:
@@ -314,7 +355,7 @@ def brief(msgs):
 
 
 def moved(events):
-    return any(ev['msgs'] or (ev['t'] == 'read' and ev['r'][0] == 'data') for ev in events)
+    return any(ev.get('msgs') or (ev['t'] == 'read' and ev['r'][0] == 'data') for ev in events)
 
 
 def check_trace(ctx, events, mout, kind):
@@ -346,8 +387,55 @@ def check_trace(ctx, events, mout, kind):
         ctx.fail(inp, d)
 
 
-# no known finding is left for this property (C11.F11 was repaired): every failure is a violation
-CLASSES = {}
+# ---------------------------------------------------------------- die() with a short write (finding C11.F48)
+def die_oracle(inp):
+    """Irc.die(): the QUIT is queued, the Irc is a zombie; irclib.Irc.takeMsg calls driver.die() as soon as its queues are
+    empty, i.e. INSIDE the _sendIfMsgs() that has just taken the QUIT.  The OS accepts inp['accept'] bytes per send.
+    Property: the bytes written are the encoding of the messages taken -- the driver has to keep flushing.  No model
+    (die()/zombie are not modelled): direct oracle only."""
+    m = mods()
+    drivers, Socket = m['drivers'], m['Socket']
+    d, irc0, conn = new_driver()
+
+    class DyingIrc(StubIrc):
+        zombie = True
+
+        def takeMsg(self):
+            msg = StubIrc.takeMsg(self)
+            if msg is None and not d.zombie:
+                d.die()                    # irclib.Irc.takeMsg: `elif self.zombie and not self.fastqueue and not self.queue`
+            return msg
+    irc = DyingIrc()
+    d.irc = irc
+    irc.queue = [Txt(t) for t in inp['msgs']]
+    drivers._drivers[d.name()] = d
+    saved = Socket.SocketDriver.__dict__['_select']
+    Socket.SocketDriver._select = classmethod(lambda cls: None)      # no real select() on the scripted socket
+    try:
+        conn.sres = ['sent', inp['accept']]
+        d._sendIfMsgs()
+        for _ in range(4 * len(''.join(inp['msgs'])) + 4):          # the driver loop, as long as it still schedules the driver
+            drivers.run()
+            if d.name() not in drivers._drivers:
+                break
+    finally:
+        Socket.SocketDriver._select = saved
+        drivers._drivers.pop(d.name(), None)
+        drivers._deadDrivers.discard(d.name())
+        drivers._newDrivers.clear()
+    want = ''.join(irc.taken).encode('utf-8')
+    if bytes(conn.wire) != want:
+        return ('Irc.die(): the driver left the loop after the socket had received %r of %r (%d bytes still in the out-buffer, socket %s)'
+                % (bytes(conn.wire), want, len(d.outbuffer), 'closed' if conn._closed else 'left open'))
+    return None
+
+
+def is_f48(inp):
+    """class of finding C11.F48: a dying driver whose last send() is short"""
+    return inp.get('op') == 'die' and inp['accept'] < len(''.join(inp['msgs']).encode('utf-8'))
+
+
+CLASSES = {'die_with_short_write': is_f48}
 
 
 # ---------------------------------------------------------------- generators
@@ -476,6 +564,45 @@ def gen_trace(rng, hostile=False):
         s = gen_sres(rng, hostile)
         out.append(ev_send(msgs, s) if kind == 's' else ev_read(r, msgs, s))
     return out + DRAIN
+
+
+RECONNECT = {'t': 'reconnect'}
+
+
+def gen_reconnect(rng=None):
+    """finding C11.F47: the connection ends with the beginning of a line in the in-buffer, a half-sent message in the
+    out-buffer and/or a high EAGAIN count; reconnect(); traffic on the new socket.  rng=None: the canonical witnesses"""
+    if rng is None:
+        a = [ev_read(data(b':old.server NOTICE * :partial')),
+             ev_send(['PRIVMSG NickServ :identify hunter2\r\n'], ('sent', 20)), ev_send([], ('err', 104)), RECONNECT,
+             ev_send(['CAP LS 302\r\n', 'NICK test\r\n'], ('sent', BIG)), ev_read(data(b':new.server NOTICE * :hello\r\n'))]
+        b = ([ev_send(['PING a\r\n'], ('err', 11))] + [ev_send([], ('err', 11)) for _ in range(121)] + [RECONNECT,
+             ev_send(['NICK test\r\n'], ('err', 11)), ev_send([], ('sent', BIG))])
+        return [a + DRAIN, b + DRAIN]
+    evs = []
+    for _ in range(rng.randint(1, 3)):                      # one to three connections
+        for _ in range(rng.randint(0, 4)):
+            k = rng.random()
+            if k < 0.5:
+                evs.append(ev_send([gen_text(rng) for _ in range(rng.choice([0, 1, 1, 2]))], gen_sres(rng)))
+            else:
+                line = gen_line(rng) + b'\n' + gen_line(rng)[:rng.randint(0, 12)]
+                evs.append(ev_read(data(line[rng.randint(0, 5):] or b'x')))
+        k = rng.random()
+        if k < 0.3:                                          # half-sent message, then the socket fails
+            evs += [ev_send([gen_text(rng)], ('sent', rng.randint(1, 20))), ev_send([], ('err', rng.choice([104, 32, 0])))]
+        elif k < 0.5:
+            evs += [ev_send([gen_text(rng)], ('sent', rng.randint(1, 20))), ev_read(data(b''))]   # peer closed
+        elif k < 0.6:
+            evs += [ev_send([gen_text(rng)], ('err', 11))] + [ev_send([], ('err', 11)) for _ in range(rng.choice([100, 121, 122]))]
+        elif k < 0.8:
+            evs += [ev_send([gen_text(rng)], ('sent', rng.randint(1, 20)))]                        # reconnect while connected
+        evs.append(RECONNECT)
+        if rng.random() < 0.5:
+            evs.append(ev_send([gen_text(rng)], ('err', 11)))   # first write on the new socket hits EAGAIN
+    evs.append(ev_send([gen_text(rng)], gen_sres(rng)))
+    evs.append(ev_read(data(gen_line(rng) + b'\n')))
+    return [evs + DRAIN]
 
 
 def gen_eagain_burst(rng, n):
@@ -617,13 +744,14 @@ def check_primitives(ctx):
 def run(ctx):
     mods()
     rng = ctx.rng
-    cases = [(t, 'corpus') for t in CORPUS] + [(gen_eagain_isolated(), 'corpus')] + [(t, 'corpus') for t in gen_long_lines()]   # seeded change C11_7: EAGAIN counter never reset by send
+    cases = [(t, 'corpus') for t in CORPUS] + [(gen_eagain_isolated(), 'corpus')] + [(t, 'corpus') for t in gen_long_lines()] + [(t, 'corpus') for t in gen_reconnect()]   # seeded change C11_7: EAGAIN counter never reset by send
     cases += [(t, 'out-exhaustive') for t in gen_out_exhaustive(ctx.scale)]
     cases += [(t, 'in-partitions') for t in gen_in_exhaustive(ctx.scale)]
     ctx.notes.append('incoming: all partitions of %d streams; outgoing: all send scripts of <=%d calls over 8 texts'
                      % (len(STREAMS) + (len(STREAMS_THOROUGH) if ctx.scale > 1 else 0), 3 if ctx.scale == 1 else 4))
     cases += [(gen_eagain_burst(rng, n), 'eagain-burst') for n in (119, 120, 121, 122, 123, 130)]
     cases += [(gen_eagain_isolated(rng), 'eagain-isolated') for _ in range(ctx.n(6))]
+    cases += [(t, 'reconnect') for _ in range(ctx.n(400)) for t in gen_reconnect(rng)]
     cases += [(t, 'long-line') for _ in range(ctx.n(40)) for t in gen_long_lines(rng)]
     cases += [(gen_huge_line(rng), 'huge-line') for _ in range(ctx.n(3))]
     cases += [(gen_trace(rng), 'mixed') for _ in range(ctx.n(2500))]
@@ -631,11 +759,22 @@ def run(ctx):
     outs = ctx.model([w_trace(t) for t, _ in cases])
     for (t, kind), mo in zip(cases, outs):
         check_trace(ctx, t, mo, kind)
+    # Irc.die() with the QUIT written in pieces (finding C11.F48): every short first write
+    for msgs in (['QUIT :bye\r\n'], ['PRIVMSG #c :last w\xf6rds\r\n', 'QUIT :\u20ac\r\n']):
+        n = len(''.join(msgs).encode('utf-8'))
+        for k in list(range(0, n + 1)) + [BIG]:
+            inp = {'op': 'die', 'msgs': msgs, 'accept': k}
+            ctx.case('die-short-write', inp)
+            dd = die_oracle(inp)
+            if dd:
+                ctx.fail(inp, dd)
     check_primitives(ctx)
 
 
 def replay(ctx, inp):
     mods()
+    if inp.get('op') == 'die':
+        return die_oracle(inp)
     if inp.get('op') != 'trace':
         return None
     return direct_oracle(inp['events'])
@@ -648,6 +787,8 @@ def shrink(ctx, inp):
     evs = shrink_seq(list(inp['events']), bad)
     # shorten message lists and chunks
     for i in range(len(evs)):
+        if 'msgs' not in evs[i]:
+            continue
         for cand_msgs in ([], evs[i]['msgs'][:1], evs[i]['msgs'][-1:]):
             if cand_msgs != evs[i]['msgs']:
                 trial = evs[:i] + [dict(evs[i], msgs=cand_msgs)] + evs[i + 1:]
